@@ -37,9 +37,9 @@ func init() {
 				us = append(us, core.Unit{Name: u})
 			}
 			for _, a := range []string{"unary", "bool"} {
-				k := 6
+				k := 7
 				if tier == "thorough" {
-					k = 7
+					k = 8
 				}
 				for _, u := range enum.SeqUnits("tok", a, len(enum.Alphabets[a]), k, 2) {
 					us = append(us, core.Unit{Name: u})
@@ -81,9 +81,9 @@ func init() {
 		Assumptions: []string{"the default-field name never occurs in the query (the statement's precondition)"},
 		Bounds: func(tier string) map[string]any {
 			if tier == "thorough" {
-				return map[string]any{"N_full": 5, "N_focused": 7, "trees": "T(21,2)"}
+				return map[string]any{"N_full": 5, "N_focused": 8, "trees": "T(21,2)"}
 			}
-			return map[string]any{"N_full": 4, "N_focused": 6, "trees": "T(21,1) ∪ T(6,2)"}
+			return map[string]any{"N_full": 4, "N_focused": 7, "trees": "T(21,1) ∪ T(6,2)"}
 		},
 		Deadline: func(tier string) int {
 			if tier == "thorough" {
